@@ -33,7 +33,7 @@ func (db *Database) cascadingBoost(results []SearchResult, pq *nlp.ProcessedQuer
 	}
 
 	// Re-sort by boosted scores
-	sort.Slice(results, func(i, j int) bool {
+	sort.SliceStable(results, func(i, j int) bool {
 		return results[i].Score > results[j].Score
 	})
 
